@@ -93,18 +93,18 @@ static void usage(void)
  */
 static char *replace_str(char *str, char *orig, char *rep)
 {
-  static char buffer[1024];
   char *p;
+  size_t orig_len = strlen(orig);
+  size_t rep_len = strlen(rep);
 
-  if(!(p = strstr(str, orig)))
+  /* replacing in place; the result is never longer than the source */
+  if(rep_len > orig_len || !(p = strstr(str, orig)))
     return str;
 
-  strncpy(buffer, str, p-str);
-  buffer[p-str] = '\0';
+  memcpy(p, rep, rep_len);
+  memmove(p+rep_len, p+orig_len, strlen(p+orig_len)+1);
 
-  sprintf(buffer+(p-str), "%s%s", rep, p+strlen(orig));
-
-  return buffer;
+  return str;
 }
 
 /**
